@@ -140,6 +140,12 @@ def r10b(ctx):
                        'forward)', where(fn, e.node), nontrivial=False)
                 continue
             n += 1
+            if e.data[2] == ('attr', SELF, 'theta_alpha'):
+                # save/restore idiom: a value read from theta_alpha earlier is written back
+                ctx.ob('R10b', f'{fn.cls.name}.{fn.name} restores theta_alpha', True,
+                       'writes back the coefficients saved before', where(fn, e.node),
+                       nontrivial=False)
+                continue
             kind = is_prob(val)
             if kind is None:
                 oh = onehot_source(repo, val)
